@@ -31,11 +31,46 @@ def make_ws(spec, obs, poi='mu'):
             'measurements': [{'name': 'meas', 'config': {'poi': poi, 'parameters': spec['parameters']}}]}
 
 
+def report_twice(ctx, c, inp):
+    """asking the configuration again gives the same answer (one entry per component every time), and the per-set reports keep their sizes"""
+    first = {nm: copy.deepcopy(getattr(c, nm)()) for nm in ('suggested_init', 'suggested_bounds', 'suggested_fixed')}
+    for rep in range(2):
+        for nm in first:
+            again = getattr(c, nm)()
+            if len(again) != c.npars or [tuple(x) if isinstance(x, (list, tuple)) else x for x in again] != [tuple(x) if isinstance(x, (list, tuple)) else x for x in first[nm]]:
+                ctx.fail(f'C12/report-changes-on-repeat/{nm}', f'{nm}() called again returns something else (call {rep + 2})', inp, again, first[nm]); return
+    for n in c.par_order:
+        ps = c.param_set(n)
+        for nm in ('suggested_init', 'suggested_bounds', 'suggested_fixed'):
+            if len(getattr(ps, nm)) != ps.n_parameters:
+                ctx.fail(f'C12/paramset-report-size/{nm}', f'the parameter set\'s {nm} no longer has one entry per component after the configuration was queried', dict(inp, parameter=n), len(getattr(ps, nm)), ps.n_parameters); return
+
+
 def run(ctx):
     import pyhf
     rng, lean = ctx.rng, ctx.lean
     pyhf.set_backend('numpy', precision='64b')
     nspec = ctx.n(150, 5000)
+    # ---- models without a parameter of interest and with bin-wise modifiers only (the first parameter set is then a multi-component one)
+    for i in range(ctx.n(12, 200)):
+        spec, info = gen_spec.gen_spec(rng, want={'shapesys'} if i % 2 else {'staterror'}, avoid=set(gen_spec.SYS_POOL) | {'lumi', 'normfactor'})
+        try:
+            m = pyhf.Model(spec, poi_name=None)
+        except Exception as e:  # noqa
+            ctx.fail('C12/wf-spec-rejected', 'a well-formed generated spec (no POI) was rejected', {'spec': spec}, type(e).__name__); continue
+        c = m.config; ctx.count(); inp = {'spec': spec, 'poi_name': None}
+        ctx.tally('first_parameter_set', f'{c.param_set(c.par_order[0]).n_parameters}-component' if c.par_order else 'none')
+        idx = []
+        for n in c.par_order:
+            sl = c.par_slice(n); idx += list(range(sl.start, sl.stop))
+        if idx != list(range(c.npars)):
+            ctx.fail('C12/par-slices-tile', 'parameter slices do not tile range(npars) in par_order', inp, idx, c.npars)
+        for nm, lst in (('suggested_init', c.suggested_init()), ('suggested_bounds', c.suggested_bounds()), ('suggested_fixed', c.suggested_fixed()), ('par_names', c.par_names)):
+            if len(lst) != c.npars:
+                ctx.fail(f'C12/len-{nm}', f'{nm} does not have one entry per parameter component', inp, len(lst), c.npars)
+        report_twice(ctx, c, inp)
+        if c.poi_index is not None or c.poi_name is not None:
+            ctx.fail('C12/poi-index', 'a model built without POI reports one', inp, [c.poi_name, c.poi_index], None)
     for i in range(nspec):
         spec0, info = gen_spec.gen_spec(rng)
         err, m0 = enga.impl_model(pyhf, spec0, enga.impl_kwargs())
@@ -78,6 +113,7 @@ def run(ctx):
                         ('suggested_fixed', c.suggested_fixed()), ('par_names', c.par_names)):
             if len(lst) != c.npars:
                 ctx.fail(f'C12/len-{nm}', f'{nm} does not have one entry per parameter component', inp, len(lst), c.npars)
+        report_twice(ctx, c, inp)
         cidx = []
         for ch in c.channels:
             sl = c.channel_slices[ch]; cidx += list(range(sl.start, sl.stop))
